@@ -2,7 +2,7 @@
 condition facts on edges, response-use discipline (R-RDISC)."""
 import ast
 
-from .core import AnalysisError, unparse
+from .core import AnalysisError, unparse, where
 from .cfg import CFG, forward, suspension_may_raise, _walk_no_nested
 from .front import ClassInfo
 
@@ -533,3 +533,94 @@ def enumerate_yield_paths(cfg, ys, limit=4096, loop_bound=1):
             stack.append((m, seq, s2, v2,
                           n if n.kind == "stmt" else last))
     return out
+
+
+# ---------------------------------------------------------------------------
+# a sequence is a function of its arguments and of the answers it is sent:
+# what it keeps between runs (a memo in a module-level dict, on the class or
+# on the object) is state of the *library*, not of the bus - a different
+# unit at the same address, or a unit whose memory changed, is then read
+# through stale data
+
+_MUTATORS = ("setdefault", "update", "append", "add", "pop", "clear",
+             "extend", "insert", "remove", "discard", "popitem",
+             "__setitem__", "__delitem__")
+
+
+def nonlocal_stores(fn):
+    """[(node, text)] of the places where `fn` writes to something that
+    outlives the call: attribute / subscript stores and mutating method
+    calls whose root is not a local of fn, `global` / `nonlocal`."""
+    params = {a.arg for a in fn.args.args + fn.args.kwonlyargs +
+              fn.args.posonlyargs}
+    if fn.args.vararg:
+        params.add(fn.args.vararg.arg)
+    if fn.args.kwarg:
+        params.add(fn.args.kwarg.arg)
+    declared = set()
+    out = []
+    for n in _walk_no_nested(fn):
+        if isinstance(n, (ast.Global, ast.Nonlocal)):
+            declared |= set(n.names)
+            out.append((n, unparse(n)))
+    local = set()
+    for n in _walk_no_nested(fn):
+        if isinstance(n, ast.Name) and isinstance(n.ctx, ast.Store) and \
+                n.id not in declared:
+            local.add(n.id)
+        if isinstance(n, ast.ExceptHandler) and n.name:
+            local.add(n.name)
+    # parameters are the caller's objects: `self` / `cls` outlive the call;
+    # other parameters (a frame being filled in) are the caller's business
+    outliving = {"self", "cls"}
+
+    def root(e):
+        while isinstance(e, (ast.Attribute, ast.Subscript)):
+            e = e.value
+        return e.id if isinstance(e, ast.Name) else None
+    for n in _walk_no_nested(fn):
+        tgt = None
+        if isinstance(n, (ast.Attribute, ast.Subscript)) and isinstance(
+                n.ctx, (ast.Store, ast.Del)):
+            tgt = n
+        elif isinstance(n, ast.Call) and isinstance(
+                n.func, ast.Attribute) and n.func.attr in _MUTATORS:
+            tgt = n.func.value
+            if isinstance(tgt, ast.Name):
+                # a method call on a plain name mutates that object
+                r = tgt.id
+                if r in outliving or (r not in local and r not in params):
+                    out.append((n, unparse(n, 80)))
+                continue
+        if tgt is None:
+            continue
+        r = root(tgt)
+        if r is None:
+            continue
+        if r in outliving or (r not in local and r not in params):
+            out.append((n, unparse(n if isinstance(n, ast.Call) else tgt,
+                                   80)))
+    return out
+
+
+def check_stateless(run, rule, mod, named_fns, floor):
+    """named_fns: [(qualified name, FunctionDef)].  One obligation per
+    function: it writes to nothing that outlives the call."""
+    run.rule(rule, "sequences keep nothing between runs: no store to a "
+             "module-level container, to the class or to the object")
+    n = 0
+    for (q, fn) in named_fns:
+        if not any(isinstance(x, (ast.Yield, ast.YieldFrom))
+                   for x in _walk_no_nested(fn)):
+            continue
+        n += 1
+        st = nonlocal_stores(fn)
+        run.ob(rule, q, not st,
+               "%s keeps state between runs (%s): what a later run is told "
+               "then depends on an earlier one - another unit at the same "
+               "address, or the same unit after its memory changed, is read "
+               "through stale data, and commands that also set up the unit "
+               "(DTR1, the latch) are skipped" % (
+                   q.split(".")[-1], "; ".join(t for _, t in st[:3])),
+               where(mod, st[0][0]) if st else where(mod, fn))
+    run.floor("%s: sequence functions examined" % rule, n, floor)
